@@ -80,7 +80,7 @@ def check_one(chk, rng):
         rr.destroy()
 
 
-def e2e_one(chk, sseed):
+def e2e_one(chk, sseed, multi=False):
     """end-to-end: the request log never contains a must-not index; every published index variant that the published
     Release lists has exactly the listed size (no variant of a wrong size is ever published)"""
     import os
@@ -88,6 +88,35 @@ def e2e_one(chk, sseed):
     from e2e import common, runner, scenario
     rng = random.Random(sseed)
     w = common.World(rng, 1)
+    if multi:
+        # corpus: a first line that names two codenames at once, whose selections are then widened differently by later lines
+        for t in range(60):
+            w.destroy()
+            rng = random.Random(f"{sseed}-{t}")
+            w = common.World(rng, 1, force_multi=True)
+            first = w.lines[0].split()
+            k = next((i for i, x in enumerate(first) if "," in x), None)
+            cns = first[k].split(",") if k is not None else []
+            comps = first[k + 1:] if k is not None else []
+            cfgc = w.cfgs[w.repos[0]["url"]]["codenames"]
+            # a component the common line names ends up with different architectures / source flag in the two codenames
+            up = w.repos[0]["codenames"]
+
+            def leak_visible(x, y):
+                """something configured for codename x only, in a component of the common line, exists upstream for codename y"""
+                for c in comps:
+                    ex, ey = cfgc.get(x, {}).get(c) or {"arches": [], "source": False}, cfgc.get(y, {}).get(c) or {"arches": [], "source": False}
+                    ucomp = up.get(y, {}).get("components", {}).get(c)
+                    if not ucomp:
+                        continue
+                    if any(a not in ey["arches"] and a in ucomp.get("binaries", {}) for a in ex["arches"]):
+                        return True
+                    if ex["source"] and not ey["source"] and ucomp.get("sources"):
+                        return True
+                return False
+            if len(cns) >= 2 and (leak_visible(cns[0], cns[1]) or leak_visible(cns[1], cns[0])):
+                chk.count("e2e_worlds_with_a_multi_codename_line_widened_differently")
+                break
     try:
         repo = w.repos[0]
         url = repo["url"]
@@ -206,7 +235,7 @@ def run(chk, tier, rng):
     for i in range(n):
         check_one(chk, random.Random(f"C10-{chk.seed}-{i}"))
     for i in range(50 if tier == "quick" else 1200):
-        e2e_one(chk, f"C10e-{chk.seed}-{i}")
+        e2e_one(chk, f"C10e-{chk.seed}-{i}", multi=(i < 4))
     chk.assumptions += ["no component or architecture name is a substring of another (property quantifier)",
                         "S8: entries in neither mustFetch nor mustNot are don't-care; files directly below a nested component are not standard",
                         "S12: python-debian's tokeniser agrees with the harness tokeniser on generated files"]
